@@ -973,6 +973,11 @@ func (e *Engine) renderArg(fr *frame, arg iface, verb byte) []*Term {
 		}
 		return lit("[...]")
 	case float64:
+		// concrete floats: the real fmt does the work (plain verbs only; flags and widths are not parsed by this model)
+		switch verb {
+		case 'f', 'F', 'e', 'E', 'g', 'G':
+			return lit(fmt.Sprintf("%"+string(verb), v))
+		}
 		return lit(fmt.Sprint(v))
 	}
 	return lit("<" + arg.t.String() + ">")
